@@ -463,8 +463,8 @@ def rewrite (hdr : Option Str) (ts : List Tok) : List Tok :=
   if shortCircuit ts then ts else convert hdr ts
 
 -- ---------------------------------------------------------------- transform cache
-/-- getTransformedSQL: `cacheKey := sql; if headerDB != "" { cacheKey = headerDB + ":" + sql }` -/
-def cacheKey (hdr : Str) (sql : Str) : Str := if hdr.isEmpty then sql else hdr ++ [':'] ++ sql
+/-- getTransformedSQL: `cacheKey := headerDB + "\x00" + sql` (unconditional; the empty header included). -/
+def cacheKey (hdr : Str) (sql : Str) : Str := hdr ++ ['\x00'] ++ sql
 
 /-- getTransformedSQLForParallel with the cache as an association list (first hit wins). -/
 def rewriteCached (cache : List (Str × Str)) (hdr : Option Str) (ts : List Tok) : Str × List (Str × Str) :=
